@@ -787,8 +787,9 @@ Fixpoint call_info (c : nat) (h : list event) {struct h} : option (ckind * bool 
   | _ :: t => call_info c t
   end.
 (* use after close: a call begun after Close returned gets io.EOF (FetchMessage, ReadMessage) /
-   io.ErrClosedPipe (CommitMessages) — or its own context's error if that context had ended
-   before the call began (a call that first blocks and then returns ctx.Err() was not refused) *)
+   io.ErrClosedPipe (CommitMessages) — or its own context's error if that context has ended
+   (FetchMessage / ReadMessage), had ended before the call began (CommitMessages: a call that first
+   blocks and then returns ctx.Err() was not refused) *)
 Definition chk_after_close (e : event) (h : list event) : bool :=
   match e with
   | ERet c r =>
@@ -797,7 +798,8 @@ Definition chk_after_close (e : event) (h : list event) : bool :=
       match k, r with
       | KTrip, _ => true
       | KFetch, REOF | KRead, REOF | KCommit, RClosedPipe => true
-      | _, RCtx => pre
+      | KCommit, RCtx => pre                          (* blocking first and then ctx.Err() is not a refusal *)
+      | _, RCtx => existsb (is_ctx_ev c) h            (* a closed Reader's FetchMessage cannot block *)
       | _, _ => false
       end
     | _ => true
